@@ -1,9 +1,348 @@
 import Driver.Proto
+import PolyVerif.Model.Obj
 
+/-!
+  Driver for C05 (OBJ).  The text layer (what `bufio.Scanner`, `strings.Fields`, `strconv` do) lives
+  here: `lexLine` turns a line of text into a `Line String Float…` for the reader model, `printLine`
+  turns the writer model's lines into text.  Scalars are float64 bit patterns (UInt64).
+
+  tokens:  strings are hex-encoded (`-` = empty); floats 16 hex digits
+    mesh   := name nidx idx… (npos|-) xyz… (nuv|-) xy… (nnrm|-) xyz… nmats (matname|~ count)…      (~ = nil material)
+    scene  := matfile nmesh mesh…
+    result := ngroups mesh… nlibs lib…          (a read-back group is printed as a mesh; material never ~)
+
+    c05.write <scene>                 → ok <text> | panic
+    c05.read <text>                   → ok <result> | err | panic
+    c05.holds.roundtrip <scene> <result>                    → RoundTrips (strict)
+    c05.holds.roundtrip_matless_after_mat <scene> <result>  → same predicate (known finding class)
+    c05.holds.roundtrip_empty_mesh_not_last <scene> <result>→ same predicate (known finding class)
+    c05.holds.resave <text> <text'>   → `Resaves`: text' (= Write(Read text)) has the faces of text (count, order, per-corner data)
+    c05.holds.resave_mixed_shapes …   → same predicate; texts with a group that mixes corner shapes (finding class)
+-/
 namespace Driver.C05
+open PolyVerif PolyVerif.Obj
 
-/-- one request -> one answer line; `none` = unknown op / malformed -/
-def handle (_op : String) (_args : List String) : Option String := none
+abbrev S := UInt64   -- float64 bit pattern
+
+/-! ### strings / hex -/
+
+def strOfHex (s : String) : Option String :=
+  if s == "-" then some "" else
+  let rec go : List Char → List Char → Option (List Char)
+    | [], acc => some acc.reverse
+    | [_], _ => none
+    | a :: b :: r, acc => do
+      let x ← hexDigit a; let y ← hexDigit b
+      go r (Char.ofNat (x * 16 + y) :: acc)
+  (go s.toList []).map String.ofList
+
+def hexOfStr (s : String) : String :=
+  if s.isEmpty then "-" else
+  String.ofList (s.toList.foldr (fun c acc => Nat.digitChar (c.toNat / 16 % 16) :: Nat.digitChar (c.toNat % 16) :: acc) [])
+
+/-! ### numbers: printing (strconv.AppendFloat(f, 'f', -1, 64) for values whose exact decimal expansion has
+    ≤ 15 significant digits — then the shortest round-tripping decimal IS the exact expansion) and
+    parsing (strconv.ParseFloat(s, 32): correctly rounded to float32, error on overflow) -/
+
+def stripTrailingZeros (cs : List Char) : List Char := (cs.reverse.dropWhile (· == '0')).reverse
+
+def printF (b : S) : String :=
+  let bits := b.toNat
+  let sign := bits / 2 ^ 63
+  let ex : Nat := bits / 2 ^ 52 % 2048
+  let man : Nat := bits % 2 ^ 52
+  let pre := if sign == 1 then "-" else ""
+  if ex == 2047 then (if man == 0 then (if sign == 1 then "-Inf" else "+Inf") else "NaN") else
+  let (m, e) : Nat × Int := if ex == 0 then (man, -1074) else (man + 2 ^ 52, (ex : Int) - 1075)
+  if e ≥ 0 then pre ++ toString (m * 2 ^ e.toNat) else
+  let k := (-e).toNat
+  let n := m * 5 ^ k                       -- value = n / 10^k
+  let ds := (toString n).toList
+  let ds := if ds.length ≤ k then List.replicate (k + 1 - ds.length) '0' ++ ds else ds
+  let ip := ds.take (ds.length - k)
+  let fp := stripTrailingZeros (ds.drop (ds.length - k))
+  pre ++ String.ofList ip ++ (if fp.isEmpty then "" else "." ++ String.ofList fp)
+
+def isDigit (c : Char) : Bool := '0' ≤ c && c ≤ '9'
+
+def digitsVal (cs : List Char) : Nat := cs.foldl (fun a c => a * 10 + (c.toNat - '0'.toNat)) 0
+
+/-- `[+-]? digits [. digits]? ([eE] [+-]? digits)?` with at least one mantissa digit → (negative, n, e): value n·10^e -/
+def parseDecimal (s : String) : Option (Bool × Nat × Int) := do
+  let cs := s.toList
+  let (neg, cs) := match cs with
+    | '-' :: r => (true, r)
+    | '+' :: r => (false, r)
+    | _ => (false, cs)
+  let ip := cs.takeWhile isDigit
+  let cs := cs.dropWhile isDigit
+  let (fp, cs) := match cs with
+    | '.' :: r => (r.takeWhile isDigit, r.dropWhile isDigit)
+    | _ => ([], cs)
+  if ip.isEmpty && fp.isEmpty then none
+  let (ex, cs) ← match cs with
+    | c :: r =>
+      if c == 'e' || c == 'E' then
+        let (eneg, r) := match r with
+          | '-' :: q => (true, q)
+          | '+' :: q => (false, q)
+          | _ => (false, r)
+        let ed := r.takeWhile isDigit
+        if ed.isEmpty then none
+        else some ((if eneg then -(digitsVal ed : Int) else (digitsVal ed : Int)), r.dropWhile isDigit)
+      else some ((0 : Int), cs)
+    | [] => some ((0 : Int), cs)
+  if !cs.isEmpty then none
+  some (neg, digitsVal (ip ++ fp), ex - fp.length)
+
+/-- correctly rounded (ties to even) float32 value of p/q > 0, as (m, e) with value m·2^e; none on overflow -/
+def roundF32 (p q : Nat) : Option (Nat × Int) :=
+  -- k with 2^k ≤ p/q < 2^(k+1)
+  let k0 : Int := (Nat.log2 p : Int) - (Nat.log2 q : Int)
+  let ge (k : Int) : Bool := if k ≥ 0 then p ≥ q * 2 ^ k.toNat else p * 2 ^ (-k).toNat ≥ q
+  let k := if ge k0 then (if ge (k0 + 1) then k0 + 1 else k0) else k0 - 1
+  let e : Int := max (k - 23) (-149)
+  let (num, den) : Nat × Nat := if e ≥ 0 then (p, q * 2 ^ e.toNat) else (p * 2 ^ (-e).toNat, q)
+  let m := num / den
+  let r := num % den
+  let m := if 2 * r > den || (2 * r == den && m % 2 == 1) then m + 1 else m
+  -- overflow: ≥ 2^128
+  if (if e ≥ 0 then m * 2 ^ e.toNat ≥ 2 ^ 128 else false) then none else some (m, e)
+
+def parseF32 (s : String) : Option S := do
+  let (neg, n, ex) ← parseDecimal s
+  if n == 0 then some (if neg then (0x8000000000000000 : UInt64) else 0) else
+  let (p, q) : Nat × Nat := if ex ≥ 0 then (n * 10 ^ ex.toNat, 1) else (n, 10 ^ (-ex).toNat)
+  let (m, e) ← roundF32 p q
+  let f := Float.scaleB (Float.ofNat m) e
+  some (if neg then (-f).toBits else f.toBits)
+
+/-- `strconv.Atoi` -/
+def atoi (s : String) : Option Int :=
+  let cs := s.toList
+  let (neg, ds) := match cs with
+    | '-' :: r => (true, r)
+    | '+' :: r => (false, r)
+    | _ => (false, cs)
+  if ds.isEmpty || !ds.all isDigit then none
+  else some (if neg then -(digitsVal ds : Int) else (digitsVal ds : Int))
+
+/-! ### lexer -/
+
+def isSpace (c : Char) : Bool := c == ' ' || c == '\t' || c == '\n' || c == '\r' || c.toNat == 11 || c.toNat == 12
+
+/-- `strings.Fields` (ASCII) -/
+def fields (s : String) : List String :=
+  let rec go : List Char → List Char → List String → List String
+    | [], cur, acc => (if cur.isEmpty then acc else String.ofList cur.reverse :: acc).reverse
+    | c :: r, cur, acc =>
+      if isSpace c then go r [] (if cur.isEmpty then acc else String.ofList cur.reverse :: acc)
+      else go r (c :: cur) acc
+  go s.toList [] []
+
+/-- `bufio.ScanLines` -/
+def scanLines (s : String) : List String :=
+  let ls := s.splitOn "\n"
+  let ls := match ls.reverse with
+    | "" :: r => r.reverse
+    | _ => ls
+  ls.map fun l => if l.endsWith "\r" then (l.dropEnd 1).toString else l
+
+/-- `parseObjFaceComponent`; the raw ints: negative → panic at the pool lookup -/
+def pcStr (t : String) : Except Err Corner :=
+  let int? (s : String) : Except Err Int := match atoi s with | some i => .ok i | none => .error .err
+  let fin (v : Int) (vt vn : Option Int) : Except Err Corner :=
+    if v < 0 || (vt.any (· < 0)) || (vn.any (· < 0)) then .error .panic
+    else .ok ⟨v.toNat, vt.map Int.toNat, vn.map Int.toNat⟩
+  if !(t.splitOn "/").length > 1 then do
+    let v ← int? t; fin v none none
+  else if (t.splitOn "//").length > 1 then do
+    let parts := t.splitOn "//"
+    let v ← int? (parts.getD 0 "")
+    let p1 := parts.getD 1 ""
+    if (fields p1).isEmpty then fin v none none
+    else do let vn ← int? p1; fin v none (some vn)
+  else do
+    let parts := t.splitOn "/"
+    let v ← int? (parts.getD 0 "")
+    let vt ← int? (parts.getD 1 "")
+    if parts.length == 3 then do
+      let vn ← int? (parts.getD 2 ""); fin v (some vt) (some vn)
+    else fin v (some vt) none
+
+def lexLine (line : String) : Line String S :=
+  match fields line with
+  | [] => .other line
+  | kw :: args =>
+    -- components[k] is read (panic if missing) and parsed (err) in order
+    let nums (k : Nat) : Except Err (List S) :=
+      (List.range k).foldl (fun acc i => do
+        let xs ← acc
+        match args[i]? with
+        | none => .error .panic
+        | some a => match parseF32 a with
+          | none => .error .err
+          | some x => .ok (xs ++ [x])) (.ok [])
+    match kw with
+    | "v" => match nums 3 with
+      | .ok [x, y, z] => .v ⟨x, y, z⟩
+      | .error e => .bad e
+      | _ => .bad .panic
+    | "vn" => match nums 3 with
+      | .ok [x, y, z] => .vn ⟨x, y, z⟩
+      | .error e => .bad e
+      | _ => .bad .panic
+    | "vt" => match nums 2 with
+      | .ok [x, y] => .vt ⟨x, y⟩
+      | .error e => .bad e
+      | _ => .bad .panic
+    | "f" => match args with
+      | a :: b :: c :: _ => .f a b c
+      | _ => if args.any (fun t => match pcStr t with | .error .err => true | _ => false) then .bad .err else .bad .panic
+    | "g" => if args.isEmpty then .bad .err else .g (" ".intercalate args)
+    | "usemtl" => if args.isEmpty then .bad .err else .usemtl (" ".intercalate args)
+    | "mtllib" => if args.isEmpty then .bad .err else .mtllib args
+    | _ => .other line
+
+def lexText (s : String) : List (Line String S) := (scanLines s).map lexLine
+
+/-! ### printer -/
+
+def printCorner (c : Corner) : String :=
+  match c.vt, c.vn with
+  | none, none => toString c.v
+  | some t, none => s!"{c.v}/{t}"
+  | none, some n => s!"{c.v}//{n}"
+  | some t, some n => s!"{c.v}/{t}/{n}"
+
+def printLine : Line Corner S → String
+  | .v p => s!"v {printF p.x} {printF p.y} {printF p.z}"
+  | .vn p => s!"vn {printF p.x} {printF p.y} {printF p.z}"
+  | .vt p => s!"vt {printF p.x} {printF p.y}"
+  | .f a b c => s!"f {printCorner a} {printCorner b} {printCorner c}"
+  | .g n => "g " ++ n
+  | .usemtl n => "usemtl " ++ n
+  | .mtllib fs => "mtllib " ++ " ".intercalate fs
+  | .other t => t
+  | .bad _ => "<bad>"
+
+def printText (ls : List (Line Corner S)) : String := String.join (ls.map fun l => printLine l ++ "\n")
+
+/-! ### request parsing -/
+
+def u64? (s : String) : Option S := if s.length ≠ 16 then none else (parseHex s).map Nat.toUInt64
+
+def takeN {β : Type} (one : List String → Option (β × List String)) : Nat → List String → Option (List β × List String)
+  | 0, ts => some ([], ts)
+  | n + 1, ts => do let (a, ts) ← one ts; let (r, ts) ← takeN one n ts; some (a :: r, ts)
+
+def nat1 : List String → Option (Nat × List String)
+  | a :: ts => do let a ← nat? a; some (a, ts)
+  | [] => none
+def v3? : List String → Option (V3 S × List String)
+  | a :: b :: c :: ts => do let a ← u64? a; let b ← u64? b; let c ← u64? c; some (⟨a, b, c⟩, ts)
+  | _ => none
+def v2? : List String → Option (V2 S × List String)
+  | a :: b :: ts => do let a ← u64? a; let b ← u64? b; some (⟨a, b⟩, ts)
+  | _ => none
+def attr? {β : Type} (one : List String → Option (β × List String)) : List String → Option (Option (List β) × List String)
+  | "-" :: ts => some (none, ts)
+  | n :: ts => do let n ← nat? n; let (v, ts) ← takeN one n ts; some (some v, ts)
+  | [] => none
+def mat? : List String → Option ((Option String × Nat) × List String)
+  | "~" :: c :: ts => do let c ← nat? c; some ((none, c), ts)
+  | n :: c :: ts => do let n ← strOfHex n; let c ← nat? c; some ((some n, c), ts)
+  | _ => none
+
+def mesh? : List String → Option ((String × Mesh S) × List String)
+  | name :: n :: ts => do
+    let name ← strOfHex name
+    let n ← nat? n
+    let (idx, ts) ← takeN nat1 n ts
+    let (pos, ts) ← attr? v3? ts
+    let (uv, ts) ← attr? v2? ts
+    let (nrm, ts) ← attr? v3? ts
+    match ts with
+    | k :: ts => do
+      let k ← nat? k
+      let (mats, ts) ← takeN mat? k ts
+      some ((name, ⟨idx, pos, uv, nrm, mats⟩), ts)
+    | [] => none
+  | _ => none
+
+def scene? : List String → Option ((String × List (String × Mesh S)) × List String)
+  | f :: n :: ts => do
+    let f ← strOfHex f; let n ← nat? n
+    let (ms, ts) ← takeN mesh? n ts
+    some ((f, ms), ts)
+  | _ => none
+
+def str1 : List String → Option (String × List String)
+  | a :: ts => do let a ← strOfHex a; some (a, ts)
+  | [] => none
+
+def result? : List String → Option ((List (String × Mesh S) × List String) × List String)
+  | n :: ts => do
+    let n ← nat? n
+    let (ms, ts) ← takeN mesh? n ts
+    match ts with
+    | k :: ts => do
+      let k ← nat? k
+      let (libs, ts) ← takeN str1 k ts
+      some ((ms, libs), ts)
+    | [] => none
+  | [] => none
+
+def f64s (xs : List S) : List String := xs.map fun x => natToHex x.toNat 16
+def attr3Hex : Option (List (V3 S)) → List String
+  | none => ["-"]
+  | some vs => toString vs.length :: vs.flatMap fun v => f64s [v.x, v.y, v.z]
+def attr2Hex : Option (List (V2 S)) → List String
+  | none => ["-"]
+  | some vs => toString vs.length :: vs.flatMap fun v => f64s [v.x, v.y]
+
+def meshHex (p : String × Mesh S) : List String :=
+  let m := p.2
+  [hexOfStr p.1, toString m.idx.length] ++ m.idx.map toString ++ attr3Hex m.pos ++ attr2Hex m.uv ++ attr3Hex m.nrm ++
+    [toString m.mats.length] ++ m.mats.flatMap fun (n, c) => [match n with | none => "~" | some n => hexOfStr n, toString c]
+
+def resultHex (gs : List (String × Mesh S)) (libs : List String) : String :=
+  " ".intercalate ([toString gs.length] ++ gs.flatMap meshHex ++ [toString libs.length] ++ libs.map hexOfStr)
+
+def readText (t : String) : Except Err (List (String × Mesh S) × List String) :=
+  (readObj pcStr (lexText t)).map fun (gs, libs) => (gs.map toMesh, libs)
+
+/-- print-then-parse of a scalar (identity on float32 values with a short exact expansion) -/
+def rtF (x : S) : S := (parseF32 (printF x)).getD x
+
+def handle (op : String) (args : List String) : Option String := do
+  match op with
+  | "c05.write" =>
+      let ((f, ms), _) ← scene? args
+      match writeObj f ms with
+      | .ok ls => pure ("ok " ++ hexOfStr (printText ls))
+      | .error _ => pure "panic"
+  | "c05.read" =>
+      let t ← strOfHex (← args.head?)
+      match readText t with
+      | .ok (gs, libs) => pure ("ok " ++ resultHex gs libs)
+      | .error .err => pure "err"
+      | .error .panic => pure "panic"
+  | "c05.holds.roundtrip" | "c05.holds.roundtrip_matless_after_mat" | "c05.holds.roundtrip_empty_mesh_not_last" =>
+      let ((_, ms), r) ← scene? args
+      let ((gs, _), _) ← result? r
+      pure (boolStr (RoundTrips rtF ms gs))
+  | "c05.holds.roundtrip_carry" =>
+      let ((_, ms), r) ← scene? args
+      let ((gs, _), _) ← result? r
+      pure (boolStr (RoundTripsCarry rtF none ms gs))
+  | "c05.holds.resave" | "c05.holds.resave_mixed_shapes" =>
+      match args with
+      | [a, b] =>
+        let a ← strOfHex a; let b ← strOfHex b
+        pure (boolStr (Resaves pcStr pcStr id (lexText a) (lexText b)))
+      | _ => none
+  | _ => none
 
 end Driver.C05
 
